@@ -54,11 +54,12 @@ def main():
         # ---------------- Trace_Segments
         d = defs.header_only_definition()
         hist = [(100, 1, 5), (100, 0, 6), (200, 3, 0), (100, 2, 7), (100, 2, 8)]
-        outs, ngap, nno, problems = c12.run_history(d, hist, 2)
+        outs, wk, problems = c12.run_history(d, hist, 2)
+        ngap, nno = wk["gap"], wk["nostart"]
 
         def seg_verdict(o, g, n):
             path = os.path.join(ctx.work, "st-seg.ndjson")
-            core.write_ndjson(path, [{"tid": 1, "pk": [list(h) for h in hist], "outs": o, "gaps": g, "nostarts": n, "k": 2}])
+            core.write_ndjson(path, [{"tid": 1, "pk": [list(h) for h in hist], "outs": o, "gaps": g, "nostarts": n, "other": 0, "k": 2}])
             cfg = c12.cfg(ctx, "st-seg.cfg", None, 1000, [100, 200], [0], ["TraceInv"], init=("TraceInit", "TraceNext"))
             r = ctx.tlc_expect_ok("Trace_Segments", cfg, workers=1, env={"TRACE_FILE": path}, count=False)
             return core.parse_printed(r.printed[0])[0]
@@ -67,6 +68,7 @@ def main():
         expect("segments/event-deleted (one output)", seg_verdict(outs[:-1], ngap, nno), "REJECT")
         expect("segments/events-swapped (two outputs)", seg_verdict(list(reversed(outs)), ngap, nno), "REJECT")
         expect("segments/warning-count-flipped", seg_verdict(outs, ngap, nno + 1), "REJECT")
+        expect("segments/warning-kind-flipped", seg_verdict(outs, ngap + 1, nno - 1), "REJECT")
 
         # ---------------- Trace_Decode
         g = gendefs.DefGen(rng, rich=False).build()
